@@ -105,31 +105,40 @@ def run_for(pid):
 
 
 if __name__ == '__main__':
+    # every item is independent (own scratch copy, own evidence dir): run a few at a time
+    from concurrent.futures import ThreadPoolExecutor
     only = sys.argv[1:] or None
-    bad = 0
+    jobs = []
     for name, ids, meta in seeds_for():
         if only and not any(name.startswith(o) or o in ids for o in only):
             continue
-        r = run_seed(name, ids)
-        print(name, json.dumps(r))
-        sys.stdout.flush()
-        bad += sum(1 for v in r.values() if v == 'MISSED')
+        jobs.append(('seed', name, ids))
     for name, pid, expect in mutants_for():
         if only and not any(name.startswith(o) or o == pid for o in only):
             continue
-        r = run_mutant(name, pid, expect)
-        print('mutant', name, pid, r)
-        sys.stdout.flush()
-        bad += int(r in ('MISSED', 'FALSE-ALARM'))
+        jobs.append(('mutant', name, (pid, expect)))
     from .manifest import CLAIMED
     for name in benign_sets():
-        if only and not any(o == 'benign' or name.startswith(o) for o in only):
+        if only and not any(o == 'benign' or name == o or name.startswith(o) for o in only):
             continue
-        for pid in sorted(CLAIMED):
-            r = run_benign(name, pid)
-            if not r.startswith('silent'):
-                print('benign', name, pid, r)
-                bad += int(r == 'FALSE-ALARM')
-        print('benign', name, 'done')
-        sys.stdout.flush()
+        jobs.append(('benign', name, sorted(CLAIMED)))
+
+    def work(job):
+        kind, name, arg = job
+        if kind == 'seed':
+            r = run_seed(name, arg)
+            return f'{name} {json.dumps(r)}', sum(1 for v in r.values() if v == 'MISSED')
+        if kind == 'mutant':
+            r = run_mutant(name, arg[0], arg[1])
+            return f'mutant {name} {arg[0]} {r}', int(r in ('MISSED', 'FALSE-ALARM'))
+        r = run_seed(name, arg, base=BENIGN)
+        bad = sorted(i for i, v in r.items() if v == 'caught')
+        skipped = sorted(i for i, v in r.items() if v.startswith('skipped'))
+        return (f'benign {name}: ' + ('silent for all %d checks' % len(arg) if not bad and not skipped else ('FALSE-ALARM in ' + ','.join(bad) if bad else 'skipped'))), len(bad)
+    bad = 0
+    with ThreadPoolExecutor(max_workers=int(os.environ.get('IREF_SELFTEST_JOBS', '4'))) as ex:
+        for line, b in ex.map(work, jobs):
+            print(line)
+            sys.stdout.flush()
+            bad += b
     sys.exit(1 if bad else 0)
